@@ -36,6 +36,7 @@ type State struct {
 	Hist    []string
 	Crashed bool // the history contains a crash (C02's minimality is then not asserted)
 	GCd     bool
+	LoadV   *Vars // the source variables at the last full load of the project (nil: never loaded)
 }
 
 func (s *State) files() map[string]string {
@@ -46,9 +47,15 @@ func (s *State) files() map[string]string {
 	return f
 }
 
+// labelSet names the labels the BUILD files declare for these variables.
+func labelSet(v Vars) string { return strings.Join(v.targets(), ",") + fmt.Sprint(v.XSrc) }
+
 func (s *State) key() string {
 	h := sha256.New()
 	fmt.Fprintf(h, "%+v|%s|%s|%v", s.V, hashFiles(canonArt(s.Art)), s.M.String(), s.Crashed)
+	if s.LoadV != nil {
+		fmt.Fprintf(h, "|loaded:%v", labelSet(*s.LoadV))
+	}
 	return hex.EncodeToString(h.Sum(nil))[:24]
 }
 
@@ -118,7 +125,7 @@ func canonArt(art map[string]string) map[string]string {
 }
 
 func (s *State) child(op string) *State {
-	n := &State{V: s.V, Art: map[string]string{}, M: s.M.clone(), Crashed: s.Crashed, GCd: s.GCd}
+	n := &State{V: s.V, Art: map[string]string{}, M: s.M.clone(), Crashed: s.Crashed, GCd: s.GCd, LoadV: s.LoadV}
 	for k, v := range s.Art {
 		n.Art[k] = v
 	}
@@ -234,6 +241,7 @@ func builds() []Op {
 		b("interrupt:build:mid(dies in mid's body)", buildOpts{Target: tMid, Interrupt: "out/mid"}),
 		b("dry:top", buildOpts{Target: tTop, Dry: true}),
 		b("dry:mid", buildOpts{Target: tMid, Dry: true}),
+		b("session:build:top,+pkg:other,reload,build:other", buildOpts{Target: tTop, Then: tOther, Session: &Vars{}}),
 		b("build:top+gc(one load)", buildOpts{Target: tTop, GCAfterRun: true}),
 		b("build:leaf+gc(one load)", buildOpts{Target: tLeaf, GCAfterRun: true}),
 		b("gc:full", buildOpts{GC: true}),
@@ -327,7 +335,7 @@ func alphabet(prop string, thorough bool) []Op {
 		if strings.HasPrefix(o.Name, "interrupt:") && prop != "C01" {
 			continue // interrupted builds: C01 here, every crash point in C03
 		}
-		if strings.Contains(o.Name, "(one load)") && (prop == "C02" || prop == "C18") {
+		if (strings.Contains(o.Name, "(one load)") || strings.HasPrefix(o.Name, "session:")) && (prop == "C02" || prop == "C18") {
 			// two runs on one loaded Project: C02 quantifies over builds that are each preceded by
 			// a fresh load, and C18's automaton is per build (its own one-Project part is (e))
 			continue
@@ -370,7 +378,7 @@ func alphabet(prop string, thorough bool) []Op {
 			return pick(all...)
 		}
 		return pick("edit:src/a.txt", "addremove:dir/w.txt", "target:pkg:other", "target:pkg:co:lon", "target:pkg:other_all", "edge:top->leaf", "stray-files", "delete:gen/g.txt",
-			"build:top", "build:leaf", "build:colon", "gc:full", "gc:index", "build:top+gc(one load)", "build:leaf+gc(one load)")
+			"build:top", "build:leaf", "build:colon", "gc:full", "gc:index", "build:top+gc(one load)", "build:leaf+gc(one load)", "session:build:top,+pkg:other,reload,build:other")
 	case "C18":
 		if thorough {
 			return pick(all...)
@@ -478,6 +486,25 @@ func (x *searcher) step(s *State, op Op) []*State {
 		return []*State{n}
 	}
 	o := *op.Build
+	if o.Session != nil {
+		// one long-lived Project: build top, //pkg:other appears, reload, build it
+		if s.V.Other {
+			return nil
+		}
+		v2 := s.V
+		v2.Other = true
+		o.Session = &v2
+		res := x.runBuild(s, o)
+		if res.LoadErr != nil {
+			x.violation("load-failed", "session: "+es(res.LoadErr), s, n.Hist, res)
+			return nil
+		}
+		n.V = v2
+		n.LoadV = &v2
+		n.Art = artOf(res.After)
+		n.M.apply(res.Events, v2, res.After)
+		return []*State{n}
+	}
 	if o.Interrupt != "" {
 		return x.interruptedBuild(s, n, o)
 	}
@@ -488,6 +515,10 @@ func (x *searcher) step(s *State, op Op) []*State {
 		return nil
 	}
 	n.Art = artOf(res.After)
+	if !o.PreferIndex {
+		lv := s.V
+		n.LoadV = &lv // a full load happened (it rewrites the index)
+	}
 	x.r.Outcome("executed_sets", op.Name+":"+setString(res.Executed)+"|"+es(res.RunErr))
 	// sources must never change
 	for p, c := range s.V.render() {
@@ -506,7 +537,7 @@ func (x *searcher) step(s *State, op Op) []*State {
 		bres.After = res.AfterRun
 		x.checkBuild(s, n, o, &bres)
 		n.M.apply(res.Events, s.V, res.AfterRun)
-		mid := &State{V: s.V, Art: artOf(res.AfterRun), M: n.M, Crashed: s.Crashed, GCd: s.GCd, Hist: n.Hist}
+		mid := &State{V: s.V, Art: artOf(res.AfterRun), M: n.M, Crashed: s.Crashed, GCd: s.GCd, Hist: n.Hist, LoadV: n.LoadV}
 		gres := &buildResult{AfterLd: res.AfterRun, After: res.After, RunErr: res.GCErr, Events: res.Events, Executed: res.Executed}
 		x.checkGC(mid, n, buildOpts{GC: true}, gres)
 	case o.GC:
@@ -736,7 +767,7 @@ func main() {
 	}
 	ops := alphabet(*fProp, r.Thorough())
 	depth := 5
-	if len(ops) <= 15 && *fProp != "C18" {
+	if len(ops) <= 16 && *fProp != "C18" {
 		depth = 6
 	}
 	if r.Thorough() {
